@@ -859,7 +859,9 @@ func (vc *VC) callMods(fn *ssa.Function, c *ssa.CallCommon, li *loopInfo, visiti
 				return []modTarget{{kind: "kv"}}
 			}
 		}
-		return nil
+		// a call of a function value held in a parameter or variable: what it may write is known only once the value
+		// is (when the enclosing function has been inlined with a function literal as argument)
+		return []modTarget{{kind: "call-value", ref: c.Value}}
 	}
 	name := callee.String()
 	if name == "time.Now" || name == "time.Since" {
@@ -891,6 +893,10 @@ func (vc *VC) callMods(fn *ssa.Function, c *ssa.CallCommon, li *loopInfo, visiti
 			}
 		case strings.HasSuffix(name, ".hasKey"), strings.HasSuffix(name, ".NewIterator"), strings.HasSuffix(name, ".Close"),
 			strings.HasSuffix(name, ".ValidForPrefix"), strings.HasSuffix(name, ".Item"):
+		case strings.HasPrefix(name, "(*bytes.Buffer)."):
+			if !strings.HasSuffix(name, ".String") {
+				out = append(out, modTarget{kind: "bufstr"})
+			}
 		case name == "math/rand.Shuffle":
 			if mc, ok := c.Args[1].(*ssa.MakeClosure); ok {
 				if fn, ok := mc.Fn.(*ssa.Function); ok && len(fn.FreeVars) == 1 {
@@ -911,9 +917,17 @@ func (vc *VC) callMods(fn *ssa.Function, c *ssa.CallCommon, li *loopInfo, visiti
 		case strings.HasSuffix(name, ".Value"):
 			if mc, ok := c.Args[1].(*ssa.MakeClosure); ok {
 				for _, b := range mc.Bindings {
-					if _, isPtr := b.Type().Underlying().(*types.Pointer); isPtr {
-						out = append(out, vc.addrTarget(b, li))
+					pt, isPtr := b.Type().Underlying().(*types.Pointer)
+					if !isPtr {
+						continue
 					}
+					if _, isIface := pt.Elem().Underlying().(*types.Interface); isIface {
+						// the callback decodes into whatever the captured interface variable points to: the variable
+						// itself is only read; its pointee is resolved when the loop is cut
+						out = append(out, modTarget{kind: "deref-iface", ref: b})
+						continue
+					}
+					out = append(out, vc.addrTarget(b, li))
 				}
 			} else {
 				out = append(out, modTarget{kind: "all", heap: "Item.Value with a function value"})
